@@ -44,6 +44,11 @@ Imperative subset (TrI)
                   for .. in L: if C: raise E                                -> if existsb C L then GRaise "E" else ..;
                   for x in L: if C: break  else: E   (L declared non-empty) -> match find C L with Some x => .. | None =>
                                                                                let x := last L .. in E; ..
+  try             try: BODY  except (E1, .., En): raise C(..)   (one handler without a name, no else / finally, no return in BODY)
+                  -> match <BODY ending in GOk (names bound in BODY)> with GOk .. => rest | GRaise e => if e is one of the
+                  caught classes then GRaise "C" else GRaise e.  Caught = E1 .. En and all their subclasses: builtin classes by the
+                  running Python's hierarchy (except ValueError also catches UnicodeEncodeError ..), other classes only as
+                  declared per target (exc_parents); pseudo-names of opaque raising atoms ("_decrypt") are never caught.
   with            `with <declared context manager> as x: body` where the manager yields once and does nothing after the
                   yield (checked by the target)  ->  x = <yielded value>; body.
   bool            a == b / a != b on booleans -> Bool.eqb.
@@ -328,13 +333,14 @@ class TrI(Tr):
     """
 
     def __init__(self, names=None, calls=None, consts=None, atoms=(), ratoms=(), skip=(), octets=(), raises=False,
-                 fields=None, hashobjs=(), lists=None, effects=None, opaque=()):
+                 fields=None, hashobjs=(), lists=None, effects=None, opaque=(), exc_parents=None):
         super().__init__(names, calls, consts, raises)
         self.fields = dict(fields or {})      # 'self.s2k.usage' -> (coq name, type): attributes that are assigned, tracked like locals
         self.hashobjs = set(hashobjs)         # local names holding a hashlib object (modelled as the octets fed to it so far)
         self.lists = dict(lists or {})        # source text of an iterable -> (coq term : list Z, element type)
         self.effects = dict(effects or {})    # exact source text of a statement -> (state variable, coq term of its new value, type)
         self.opaque = set(opaque)             # names of opaque types (values are only passed around)
+        self.exc_parents = dict(exc_parents or {})   # non-builtin exception class -> [its base classes] (for `except` matching)
         self.atoms = [(tpl(a[0]),) + tuple(a[1:]) for a in atoms]
         self.ratoms = [(tpl(a[0]),) + tuple(a[1:]) for a in ratoms]
         self.skip = {s: set() for s in skip}
@@ -821,6 +827,8 @@ class TrI(Tr):
                     body = self.bind(n, 'bytes', '(skipn 1%%nat %s)' % cn, rest, k)
                     return '(match %s with [] => GRaise "IndexError"%%string | _ :: _ => %s end)' % (cn, body)
             raise Unsupported('del ' + ast.unparse(x)[:60])
+        if isinstance(s, ast.Try):
+            return self.try_stmt(s, rest, k)
         if isinstance(s, ast.If):
             c, pend = self.simple(lambda: self.cond(s.test))
             joined = None
@@ -833,6 +841,61 @@ class TrI(Tr):
             kk = (lambda: self.block(rest, k)) if (rest or k is not None) else None
             return self.wrap(pend, '(if %s then %s else %s)' % (c, self.block(s.body, kk), self.block(s.orelse, kk)))
         raise Unsupported('statement ' + ast.dump(s)[:80])
+
+    def caught_names(self, classes):
+        """the exception class names an `except (classes)` clause catches: the listed classes and every subclass of them.
+        Builtin classes: the subclass relation of the running Python's builtins.  Other classes: only as declared in
+        exc_parents (a listed non-builtin class that is not declared there is Unsupported; a raised non-builtin class that is
+        not declared is taken to derive from Exception only)."""
+        import builtins
+        bi = {n: c for n, c in vars(builtins).items() if isinstance(c, type) and issubclass(c, BaseException)}
+        for c in classes:
+            if c not in bi and c not in self.exc_parents: raise Unsupported('except clause names the undeclared class ' + c)
+        def parents(n):
+            if n in bi: return [b.__name__ for b in bi[n].__mro__[1:] if b.__name__ in bi]
+            out = []
+            for q in self.exc_parents.get(n, []): out += [q] + parents(q)
+            return out
+        names = sorted(set(list(bi) + list(self.exc_parents)))
+        return [n for n in names if n in classes or any(q in classes for q in parents(n))]
+
+    def try_stmt(self, s, rest, k):
+        """try: BODY  except (E1, .., En): raise C(..)        (one handler, no name, no else / finally; BODY without return)
+        BODY becomes a gres-valued term ending in GOk (the names it binds that are visible afterwards); a GRaise of a class the
+        clause catches becomes the handler's GRaise, every other GRaise passes through."""
+        if not self.raises: raise Unsupported('try in a function declared total')
+        if s.orelse or s.finalbody or len(s.handlers) != 1: raise Unsupported('try with else / finally / several handlers')
+        h = s.handlers[0]
+        if h.name is not None or h.type is None: raise Unsupported('except clause with a name / bare except')
+        cl = h.type.elts if isinstance(h.type, ast.Tuple) else [h.type]
+        if not all(isinstance(c, ast.Name) for c in cl): raise Unsupported('except clause: class expression')
+        hb = strip_doc(h.body)
+        if len(hb) != 1 or not isinstance(hb[0], ast.Raise): raise Unsupported('except handler is not a single raise')
+        if any(isinstance(n, (ast.Return, ast.Try)) for b in s.body for n in ast.walk(b)): raise Unsupported('return / try inside a try body')
+        caught = self.caught_names([c.id for c in cl])
+        before = set(self.names)
+        ex = [v for v in self.assigned(s.body) if v in before or v in self.definitely(s.body)]
+        types = {}
+        def kf():
+            for v in ex:
+                if v not in self.names: raise Unsupported('name %s is deleted in a try body' % v)
+                types[v] = self.names[v][1]
+            return '(GOk %s)' % ('tt' if not ex else self.names[ex[0]][0] if len(ex) == 1 else '(' + ', '.join(self.names[v][0] for v in ex) + ')')
+        body = self.block(s.body, kf)
+        handler = self.block(hb)
+        saved = {v: self.names.get(v) for v in ex}
+        cns = [self.coqname(v) for v in ex]
+        for v, cn in zip(ex, cns): self.names[v] = (cn, types[v])
+        try:
+            cont = self.block(rest, k)
+        finally:
+            for v in ex:
+                if saved[v] is None: del self.names[v]
+                else: self.names[v] = saved[v]
+        pat = '_' if not ex else cns[0] if len(ex) == 1 else '(' + ', '.join(cns) + ')'
+        lst = '[' + '; '.join('"%s"%%string' % n for n in caught) + ']'
+        return ('(match %s with\n | GOk %s => %s\n | GRaise e_ => if existsb (String.eqb e_) %s then %s else GRaise e_ end)'
+                % (body, pat, cont, lst, handler))
 
     def join_if(self, s, c, pend, rest, k):
             if True:
@@ -1512,7 +1575,8 @@ def gen_packets():
         pinned(disp.body[2:], ['decrypter = pk.keymaterial.__privkey__().decrypt', 'decargs = (ct, padding.PKCS1v15())'], 'decrypt_sk RSA branch')
         pinned(disp.orelse, ['if self.pkalg == PubKeyAlgorithm.ECDH:\n    decrypter = pk\n    decargs = ()\nelse:\n    raise NotImplementedError(self.pkalg)'],
                'decrypt_sk dispatch')
-        pinned(body[1:2], ['m = bytearray(self.ct.decrypt(decrypter, *decargs))'], 'decrypt_sk')
+        pinned(body[1:2], ["try:\n    m = bytearray(self.ct.decrypt(decrypter, *decargs))\nexcept (ValueError, InvalidUnwrap):\n"
+                           "    raise PGPDecryptionError('{:s} decryption failed'.format(self.pkalg.name))"], 'decrypt_sk')
         tr0 = TrI(calls=I2B, atoms=[('self.ct.me_mod_n.to_mpibytes()', 'mpib', 'bytes', []),
                                     ('pk.keymaterial.__privkey__().key_size', 'key_bits', 'Z', [])])
         pad = tr0.block(disp.body[:2] + [ret_stmt('ct')])
@@ -1523,7 +1587,9 @@ def gen_packets():
         return ('(* PKESessionKeyV3.decrypt_sk, RSA branch: the ciphertext octets handed to RSA decryption\n'
                 '   (mpib = self.ct.me_mod_n.to_mpibytes(), key_bits = the private key\'s key_size) *)\n'
                 'Definition gen_rsa_ct_padded (mpib : bytes) (key_bits : Z) : bytes :=\n %s.\n\n'
-                '(* PKESessionKeyV3.decrypt_sk after  m = bytearray(self.ct.decrypt(...)) : algorithm octet, key, checksum test *)\n'
+                '(* PKESessionKeyV3.decrypt_sk after the (pinned) try: m = bytearray(self.ct.decrypt(...)) except (ValueError, InvalidUnwrap):\n'
+                '   raise PGPDecryptionError : algorithm octet and key length (IndexError / ValueError / NotImplementedError become\n'
+                '   PGPDecryptionError), key, checksum, the length-and-checksum test *)\n'
                 'Definition gen_pkesk_open (m : bytes) : gres (Z * bytes) :=\n %s.\n' % (pad, txt))
     guarded(out, 'PKESessionKeyV3.decrypt_sk', t_decrypt_sk)
 
@@ -1683,19 +1749,21 @@ def gen_fields():
                    'Definition gen_decrypt_keyblob (usage alg spec halg : Z) (salt : bytes) (count : Z) (iv encbytes pass : bytes) : gres bytes :=\n %s.\n' % txt)
         fn = find_method(priv, 'encrypt_keyblob')
         if [a.arg for a in fn.args.args] != ['self', 'passphrase', 'enc_alg', 'hash_alg']: raise Unsupported('encrypt_keyblob signature changed')
-        F = {'self.s2k.usage': ('s_usage', 'Z'), 'self.s2k.encalg': ('s_encalg', 'Z'), 'self.s2k.specifier': ('s_spec', 'Z'),
-             'self.s2k.iv': ('s_iv', 'bytes'), 'self.s2k.halg': ('s_halg', 'Z'), 'self.s2k.salt': ('s_salt', 'bytes'),
-             'self.s2k.count': ('s_count', 'Z'), 'self.encbytes': ('s_encbytes', 'bytes')}
+        # (repair a3ce830) the specifier is built on a local `s2k = String2Key()` and installed by `self.s2k = s2k` after _encrypt:
+        # the two statements are pinned text, the fields of the local object are tracked like locals
+        F = {'s2k.usage': ('s_usage', 'Z'), 's2k.encalg': ('s_encalg', 'Z'), 's2k.specifier': ('s_spec', 'Z'),
+             's2k.iv': ('s_iv', 'bytes'), 's2k.halg': ('s_halg', 'Z'), 's2k.salt': ('s_salt', 'bytes'),
+             's2k.count': ('s_count', 'Z'), 'self.encbytes': ('s_encbytes', 'bytes')}
         tr = TrI(names={'passphrase': ('pass', 'bytes'), 'enc_alg': ('enc_alg', 'Z'), 'hash_alg': ('hash_alg', 'Z')}, consts=s2kt,
                  fields=F, lists={'self.__privfields__': ('privs', 'Z')},
                  atoms=[('enc_alg.gen_iv()', 'iv0', 'bytes', []), ('bytearray(os.urandom(8))', 'salt0', 'bytes', []),
                         ('hash_alg.tuned_count', 'count0', 'Z', []), sha,
                         ('getattr(self, pf).to_mpibytes()', '(gen_to_mpibytes pf)', 'bytes', []),
-                        ('self.s2k.derive_key(passphrase)', '(s2k s_spec s_halg s_encalg s_salt s_count pass)', 'bytes', []),
+                        ('s2k.derive_key(passphrase)', '(s2k s_spec s_halg s_encalg s_salt s_count pass)', 'bytes', []),
                         ('_encrypt(_1, _2, enc_alg, _3)', '(cfb_enc enc_alg {1} {2} {0})', 'bytes', ['bytes', 'bytes', 'bytes'])],
-                 skip=['self.clear()'])
-        txt = tr.block(strip_doc(fn.body) + [ret_stmt('(self.s2k.usage, self.s2k.encalg, self.s2k.specifier, self.s2k.halg, '
-                                                      'self.s2k.salt, self.s2k.count, self.s2k.iv, self.encbytes)')])
+                 skip=['s2k = String2Key()', 'self.s2k = s2k', 'self.clear()'])
+        txt = tr.block(strip_doc(fn.body) + [ret_stmt('(s2k.usage, s2k.encalg, s2k.specifier, s2k.halg, '
+                                                      's2k.salt, s2k.count, s2k.iv, self.encbytes)')])
         tr.finish()
         res.append('(* PrivKey.encrypt_keyblob: the S2K fields and self.encbytes after the call (self.clear() is pinned text);\n'
                    '   privs = the values of the private fields in __privfields__ order (the loop variable stands for getattr(self, pf)),\n'
